@@ -52,6 +52,20 @@
 (*    vertex moved, and 6 * volume equals that of the original when the    *)
 (*    removed patch was planar; the return value is the watertightness.    *)
 (*                                                                         *)
+(* Histories and scalings.  A fill record may carry a HISTORY before the     *)
+(* call (reads that fill the cache, then invert()): the spec then judges    *)
+(* the final mesh against the INVERTED pre-mesh (f0, fb are recorded        *)
+(* inverted, sgn = -1, pre_ok says the mesh held exactly f0 before the      *)
+(* call).  Subdivide inputs may have coincident but distinct vertices (two  *)
+(* boxes face to face, a triangle soup): "every original vertex is kept" is *)
+(* then a statement about multiplicities.  A fix record may have been run   *)
+(* on a mesh one body of which was scaled by an exact power of two          *)
+(* (2^-10, 2^-12: a body whose volume is below any merge tolerance); the    *)
+(* harness multiplies that body's coordinates back, so the integers are the *)
+(* unscaled lattice surface: every FixNormals post-condition is invariant   *)
+(* under a positive scaling of one body about the origin, and the reported  *)
+(* volume is then not compared (rep.novol).                                 *)
+(*                                                                         *)
 (* "rep" holds what the result object itself reports (is_watertight,       *)
 (* is_winding_consistent, euler_number, 6 den^3 volume, 1000 * face        *)
 (* normals): the observation points the property names.  They are          *)
@@ -175,13 +189,16 @@ RepClause(c, V1, F1) ==
     ELSE IF r.wt # Watertight(F1) THEN "reported_is_watertight_not_that_of_result"
     ELSE IF r.wc # WindingConsistent(F1) THEN "reported_winding_flag_not_that_of_result"
     ELSE IF r.eul # Euler(F1) THEN "reported_euler_number_not_that_of_result"
-    ELSE IF Watertight(F1) /\ (~r.vol6ok \/ r.vol6 # Vol6(V1, F1, Zero3)) THEN "reported_volume_not_that_of_result"
+    ELSE IF ~r.novol /\ Watertight(F1) /\ (~r.vol6ok \/ r.vol6 # Vol6(V1, F1, Zero3))
+         THEN "reported_volume_not_that_of_result"
     ELSE IF Len(r.nrm) # 0 /\ (Len(r.nrm) # Len(F1) \/
                 \E k \in 1..Len(F1) : Dot(r.nrm[k], FaceCross(Tri(V1, F1[k]))) <= 0)
          THEN "reported_face_normal_against_the_winding"
     ELSE "ok"
 
 \* ------------------------------------------------------------------ subdivide
+\* number of vertices at position p (inputs may hold coincident but distinct vertices)
+PosCount(V, p) == Cardinality({k \in 1..Len(V) : V[k] = p})
 SubdivideClause(c) ==
     LET V0 == Scaled(c.v0, c.den)  F0 == c.f0  V1 == c.v1  F1 == c.f1
         sel == Range(c.sel)
@@ -189,7 +206,7 @@ SubdivideClause(c) ==
     IN
     IF c.off # "" THEN "result_offlattice_" \o c.off
     ELSE IF ~InRange(F1, Len(V1)) THEN "result_face_index_out_of_range"
-    ELSE IF ~(Range(V0) \subseteq Range(V1)) THEN "subdivide_lost_an_original_vertex"
+    ELSE IF \E p \in Range(V0) : PosCount(V1, p) < PosCount(V0, p) THEN "subdivide_lost_an_original_vertex"
     ELSE IF VolPair(V1, F1) # VolPair(V0, F0) THEN "subdivide_changed_the_volume"
     ELSE IF BagOf([k \in 1..Len(F1) |-> Scale(4, FaceCross(Tri(V1, F1[k])))])
               # BagOf(QuarterSeq(V0, F0, sel, Len(F0))) THEN "subdivide_child_not_a_quarter_of_parent_area"
@@ -290,6 +307,7 @@ FillClause(c) ==
         planar == \A G \in Groups(FB, removed) : Coplanar(V, FB, G)
     IN
     IF c.off # "" THEN "result_offlattice_" \o c.off
+    ELSE IF ~c.pre_ok THEN "history_before_fill_is_not_the_inverted_mesh"
     ELSE IF c.den # 1 \/ Len(V1) < Len(V) \/ SubSeq(V1, 1, Len(V)) # V THEN "fill_moved_a_vertex"
     ELSE IF ~InRange(F1, Len(V1)) THEN "result_face_index_out_of_range"
     ELSE LET S1 == UndOf(DirEdges(F1))  B1 == IndexBag(F1) IN
@@ -336,14 +354,16 @@ Report == LET c == Cases[i]  cl == IF c.exc # "" THEN "raised_" \o c.exc ELSE Cl
 \* (a failure here is a defect of the harness or of this module, never a finding about trimesh)
 ProperMesh(V, F) ==
     /\ Len(F) >= 1 /\ InRange(F, Len(V))
-    /\ Cardinality(Range(V)) = Len(V)                                      \* distinct positions
     /\ \A k \in 1..Len(F) : FaceCross(Tri(V, F[k])) # Zero3                \* no degenerate face
     /\ EdgesAtMostTwice(F) /\ VertexManifold(F)                           \* manifold edges and vertices
-SolidBodies(V, F) ==
-    Watertight(F) /\ WindingConsistent(F) /\ \A B \in Bodies(F) : Vol6On(V, F, B, Zero3) > 0
+\* sgn = 1: every body encloses positive volume; sgn = -1: the inverted surface of such a solid
+SolidBodiesS(V, F, sgn) ==
+    Watertight(F) /\ WindingConsistent(F) /\ \A B \in Bodies(F) : sgn * Vol6On(V, F, B, Zero3) > 0
+SolidBodies(V, F) == SolidBodiesS(V, F, 1)
 InputSane ==
     LET c == Cases[i]  V == c.v0  F == c.f0 IN
     /\ ProperMesh(V, F)
+    /\ c.op # "subdivide" => Cardinality(Range(V)) = Len(V)                \* distinct positions
     /\ c.op \in {"subdivide", "tosize"} =>
          \A k \in 1..Len(V) : \A j \in 1..3 : V[k][j] % 2 = 0              \* midpoints are lattice points
     /\ c.op = "subdivide" => Range(c.sel) \subseteq 0..(Len(F) - 1) /\ Cardinality(Range(c.sel)) = Len(c.sel)
@@ -355,7 +375,7 @@ InputSane ==
          /\ (c.closed = Watertight(F))
     /\ c.op = "fill" =>
          /\ ProperMesh(V, c.fb) /\ WindingConsistent(c.fb)
-         /\ (c.closed => SolidBodies(V, c.fb))
+         /\ c.sgn \in {1, -1} /\ (c.closed => SolidBodiesS(V, c.fb, c.sgn))
          /\ Cardinality(Range(c.removed)) = Len(c.removed) /\ Len(c.removed) \in {1, 2}
          /\ Range(c.removed) \subseteq 0..(Len(c.fb) - 1)
          \* a hole, not a notch in the border: every edge of a removed face was shared by two faces
